@@ -341,7 +341,9 @@ func customC09(t *testing.T, e *mc.Explorer) *mc.ShardResult {
 	if res.Extra == nil {
 		res.Extra = map[string]any{}
 	}
-	res.Extra["urls_in_grammar"] = len(cases)
+	if e.Shard == 0 { // identical in every shard: reported once (the runner sums numeric extras)
+		res.Extra["urls_in_grammar"] = len(cases)
+	}
 	res.Extra["strict_equivalence_classes_with_several_spellings"] = classes
 	res.Extra["uri_pairs_confirmed_end_to_end"] = pairs
 	res.WallS = time.Since(start).Seconds()
